@@ -139,6 +139,10 @@ def run(cx):
                         inst.violation(b.path, "initial flush_alloc", "a new connection starts with flush credit `%s` (more than one frame)" % v, at=b.span_at(l))
 
     ceiling_clamp(cx, "C13.d")
+    # the refill interval restarts at every refill (a refill time that is not recorded on every path makes
+    # each step refill for the whole time since the first one)
+    from props.shared import half_connection_clock
+    half_connection_clock(cx, "C13.f")
 
 
 def ceiling_clamp(cx, iid):
@@ -175,6 +179,9 @@ def ceiling_clamp(cx, iid):
                         inst.violation(b.path, "tx_bandwidth_limit", "negotiated ceiling is `%s`, expected min(own max_send_rate, peer max_receive_rate)" % e, at=b.span_at(loc))
             if not hit:
                 inst.violation(b.path, "half_connection::Config", "Config literal not found (anchor)")
+        # ... and the peer's max_receive_rate is what the peer configured
+        from props.shared import advertised_limits
+        advertised_limits(cx, inst, ["max_receive_rate"])
         hn = R.body("half_connection::HalfConnection::new")
         ok = any("arg1.tx_bandwidth_limit" in show(hn.call_expr(t)) for l, t in hn.calls("SendRateComp::new"))
         inst.site(hn, None, "SendRateComp::new(config.tx_bandwidth_limit)")
@@ -191,8 +198,14 @@ def ceiling_clamp(cx, iid):
 
 
 SELFTEST = [
+    {"name": "refill time recorded only on the first refill",
+     "edits": [{"file": "src/half_connection/mod.rs", "old": "        }\n        self.time_last_flushed = Some(now);", "new": "        } else {\n            self.time_last_flushed = Some(now);\n        }"}],
+     "expect": ["C13.f"]},
+    {"name": "advertise u32::MAX as max_receive_rate (client)",
+     "edits": [{"file": "src/client/mod.rs", "old": "                .max_receive_rate\n                .min(u32::MAX as usize) as u32,", "new": "                .max_receive_rate\n                .max(u32::MAX as usize) as u32,"}],
+     "expect": ["C13.d"]},
     {"name": "drop the flush_alloc debit after sending the sync frame",
-     "edits": [{"file": "src/half_connection/mod.rs", "old": "        self.flush_alloc -= frame_bytes.len() as isize;\n        self.sync_timeout_base_ms = now_ms;", "new": "        self.sync_timeout_base_ms = now_ms;"}],
+     "edits": [{"file": "src/half_connection/mod.rs", "old": "            self.flush_alloc -= frame_bytes.len() as isize;\n            self.sync_timeout_base_ms = now_ms;", "new": "            self.sync_timeout_base_ms = now_ms;"}],
      "expect": ["C13.a"]},
     {"name": "remove the ceiling clamp from nofeedback_expired (F10 reintroduced)",
      "edits": [{"file": "src/half_connection/send_rate.rs", "old": "        self.send_rate = self.send_rate.min(self.max_send_rate);\n\n        // Compute RTO", "new": "        // Compute RTO"}],
